@@ -132,6 +132,29 @@ template <class... Defs> void testLayout(const std::string& layoutName, const st
         { MB view3(copy3, long(size3)); walk(view3, bigger, copy3, size3, true, CHECK_PATTERN, salt + 3, "after-outgrow-view"); }
         free(copy3);
     }
+    // histories after a move: the two moved-from objects (mb: by move construction, moved: by move assignment) are reused as
+    // ordinary blocks - same sizes, smaller sizes, then larger ones - and must behave like freshly built ones
+    {
+        int which = 0;
+        for (MB* old : {&mb, &moved}) {
+            const std::vector<long>& first = (which == 0) ? counts : smaller;
+            const std::vector<long>& second = (which == 0) ? smaller : counts;
+            for (const std::vector<long>* cnt : {&first, &second}) {
+                old->resetBlocksFromSizes(sizesArr(*cnt));
+                const size_t sz = size_t(old->getAllocatedMemorySizeInByte());
+                const std::string what = std::string(which == 0 ? "moved-from(constructed)" : "moved-from(assigned)") + "-reused";
+                if (old->getPtr() == nullptr) { res.fail(tag + ":reused-block-without-buffer", layoutName + " " + what); break; }
+                walk(*old, *cnt, old->getPtr(), sz, true, CHECK_ZERO, 0, what);
+                walk(*old, *cnt, old->getPtr(), sz, false, WRITE_PATTERN, salt + 7 + uint64_t(which), what + "-write");
+                unsigned char* cp = static_cast<unsigned char*>(malloc(sz));
+                memcpy(cp, old->getPtr(), sz);
+                { MB v(cp, long(sz)); walk(v, *cnt, cp, sz, true, CHECK_PATTERN, salt + 7 + uint64_t(which), what + "-view"); }
+                free(cp);
+                res.ev("moved-from-blocks-reused");
+            }
+            ++which;
+        }
+    }
     res.ev("layouts-exercised");
 }
 
